@@ -282,7 +282,8 @@ class PureScheduler:                                    # pylint: disable=r0902
                           .format(job, container_label, before - after))
             # recursively scan nested schedulers
             if isinstance(job, PureScheduler):
-                changes = job.sanitize(verbose) or changes
+                # nested sanitize() returns True when nothing was removed
+                changes = (not job.sanitize(verbose)) or changes
         return not changes
 
     ####################
